@@ -85,6 +85,30 @@ Theorem C14_mux_nested_decided : forall acts fuel ops k e,
   nserve_expected acts fuel ops k = Some e <-> nop_spec acts fuel ops k e.
 Proof. exact nserve_expected_spec. Qed.
 
+(* --- handlers that call Handle and Serve while being served ([progs]: handler h, given its
+   trigger topic, runs a list of steps HsHandle j f h' / HsServe j t').  servemux.go:48 ranges over
+   the slice as it was when Serve started, so: a handler registered during a Serve is NOT invoked
+   by that Serve (even if its filter matches the message being served); it is invoked by every
+   Serve that starts later, including a nested one later in the same outer call.  [rspec] says this
+   over raw registration lists: the handlers of a call are selected once, from the registrations
+   R present when it starts; R' are the registrations when it returns. --- *)
+
+(* the model (compared with the code on every run) satisfies the spec for every history *)
+Theorem C14_mux_registering : forall progs fuel ops,
+  rhist progs fuel (fun _ => []) ops (rmuxes_run progs fuel muxes_empty ops).
+Proof. exact rmuxes_run_hist_empty. Qed.
+
+(* the property's clause for such a Serve: its own invocations are exactly the handlers selected for
+   ITS topic among the registrations present WHEN IT STARTED, in registration order *)
+Theorem C14_registering_outer : forall progs fuel R d i t tr R',
+  rspec progs fuel R d i t tr R' -> select_rel t (R i) (invs_at d tr).
+Proof. exact rspec_outer. Qed.
+
+(* the spec determines every event, so "observed history = model output" is the spec evaluated *)
+Theorem C14_mux_registering_decided : forall progs fuel ops evs,
+  rhist progs fuel (fun _ => []) ops evs <-> evs = rmuxes_run progs fuel muxes_empty ops.
+Proof. exact rhist_decided. Qed.
+
 (* --- '$' ---
    The property ranges over topic names that do not start with '$'.  [valid_filter], [matches] and
    the model have no case for '$' at all: exchanging '$' and 'a' everywhere in filter and topic
@@ -135,3 +159,6 @@ Print Assumptions C14_nested_outer.
 Print Assumptions C14_mux_nested.
 Print Assumptions C14_mux_nested_unique.
 Print Assumptions C14_mux_nested_decided.
+Print Assumptions C14_mux_registering.
+Print Assumptions C14_registering_outer.
+Print Assumptions C14_mux_registering_decided.
